@@ -17,12 +17,63 @@ func init() {
 
 func layoutConsts(fn *ssa.Function) map[string]bool {
 	res := map[string]bool{}
+	isLayout := func(s string) bool { return strings.Contains(s, "2006") || strings.Contains(s, "15:04") }
+	globals := map[*ssa.Global]bool{}
 	for _, b := range fn.Blocks {
 		for _, ins := range b.Instrs {
 			var ops []*ssa.Value
 			for _, op := range ins.Operands(ops) {
-				if s, ok := constString(*op); ok && (strings.Contains(s, "2006") || strings.Contains(s, "15:04")) {
+				if s, ok := constString(*op); ok && isLayout(s) {
 					res[s] = true
+				}
+				if g, ok := (*op).(*ssa.Global); ok {
+					globals[g] = true
+				}
+			}
+		}
+	}
+	// a table kept in a package-level variable: the strings its initialiser stores into it
+	if len(globals) > 0 && fn.Pkg != nil {
+		if init := fn.Pkg.Func("init"); init != nil {
+			for _, b := range init.Blocks {
+				for _, ins := range b.Instrs {
+					st, ok := ins.(*ssa.Store)
+					if !ok {
+						continue
+					}
+					s, isS := constString(st.Val)
+					if !isS || !isLayout(s) {
+						continue
+					}
+					base := st.Addr
+					for d := 0; d < 4; d++ {
+						switch x := base.(type) {
+						case *ssa.IndexAddr:
+							base = x.X
+							continue
+						case *ssa.FieldAddr:
+							base = x.X
+							continue
+						}
+						break
+					}
+					if g, isG := base.(*ssa.Global); isG && globals[g] {
+						res[s] = true
+					}
+					// a slice variable initialised from an array literal: the array is a fresh allocation stored into the global
+					if al, isAl := base.(*ssa.Alloc); isAl && al.Referrers() != nil {
+						for _, ref := range *al.Referrers() {
+							if sl, isSl := ref.(*ssa.Slice); isSl && sl.Referrers() != nil {
+								for _, r2 := range *sl.Referrers() {
+									if st2, isSt := r2.(*ssa.Store); isSt {
+										if g, isG := st2.Addr.(*ssa.Global); isG && globals[g] {
+											res[s] = true
+										}
+									}
+								}
+							}
+						}
+					}
 				}
 			}
 		}
@@ -53,9 +104,22 @@ func checkC19(p *Prog, r *Report) {
 		base := FnName(fn)
 		// result type of the constructor
 		var parser *ssa.Function
-		if fn.Signature.Results().Len() == 1 {
-			if nt := namedOf(fn.Signature.Results().At(0).Type()); nt != nil {
-				parser = p.Method("model", nt.Obj().Name(), "GetTime")
+		parserOf := func(f *ssa.Function) *ssa.Function {
+			if f.Signature.Results().Len() == 1 {
+				if nt := namedOf(f.Signature.Results().At(0).Type()); nt != nil {
+					return p.Method("model", nt.Obj().Name(), "GetTime")
+				}
+			}
+			return nil
+		}
+		parser = parserOf(fn)
+		if parser == nil {
+			// the formatting sits in a helper returning the text: the constructors calling it say which type is produced
+			// (a type whose parser only delegates to another type's parser has no table of its own and is passed over)
+			for _, site := range p.Callers(fn) {
+				if pf := parserOf(site.Parent()); pf != nil && len(layoutConsts(pf)) > 0 && (parser == nil || pf.String() < parser.String()) {
+					parser = pf
+				}
 			}
 		}
 		if parser == nil {
@@ -507,7 +571,7 @@ func noClampRule(p *Prog, r *Report, rule string) {
 	n := 0
 	for _, fn := range p.RepoFns("model") {
 		res := fn.Signature.Results()
-		if res.Len() != 2 || res.At(0).Type().String() != "time.Duration" || !errLike(res.At(1).Type()) {
+		if res.Len() == 0 || res.Len() > 2 || res.At(0).Type().String() != "time.Duration" || (res.Len() == 2 && !errLike(res.At(1).Type())) {
 			continue
 		}
 		hasSub := false
@@ -524,7 +588,7 @@ func noClampRule(p *Prog, r *Report, rule string) {
 		nRet := 0
 		for _, b := range fn.Blocks {
 			ret, isRet := b.Instrs[len(b.Instrs)-1].(*ssa.Return)
-			if !isRet || len(ret.Results) != 2 || !isNilConst(ret.Results[1]) {
+			if !isRet || len(ret.Results) == 0 || (len(ret.Results) == 2 && !isNilConst(ret.Results[1])) {
 				continue
 			}
 			nRet++
